@@ -49,7 +49,8 @@ def histories(tier: str):
     for t in genlib.TARGETS:
         sn = genlib.discover_snippets(mp, t, mm.default_snippets(t), disc / t)
         out.append(("rich", rich_text, t, sn))
-        out.append(("failing", fail_text, t, mm.default_snippets(t)))
+        if tier != "quick" or t in ("csharp", "java", "jsonschema", "typescript"):
+            out.append(("failing", fail_text, t, mm.default_snippets(t)))
     # two snippet files whose names are not valid keys: the report lists them -- in which order?
     small = genlib.render(WARM_MODEL)
     for t in (["csharp", "jsonschema"] if tier == "quick" else genlib.TARGETS):
@@ -58,18 +59,13 @@ def histories(tier: str):
         sn["another bad-name.txt"] = "y"
         sn["Zzz/yet another.txt"] = "z"
         out.append(("bad_snippet_names", small, t, sn))
-    names = ["constrained_primitives"] if tier == "quick" else ["constrained_primitives", "deep_class_hierarchy", "enum", "list_of_classes", "list_of_constrained_primitives", "list_of_enums", "list_of_primitives", "primitive_types"]
+    names = ["constrained_primitives"] if tier == "quick" else ["constrained_primitives", "deep_class_hierarchy", "list_of_classes", "list_of_enums"]
     for name, text, snippets in c22_models.repo_models(pathlib.Path(REPO), names):
         for t in genlib.TARGETS:
-            if t not in (("jsonschema", "python", "xsd") if tier == "quick" else ("csharp", "jsonschema", "python", "xsd")):
+            if t not in ("jsonschema", "python", "xsd"):
                 continue
             if t in snippets:
                 out.append((name, text, t, snippets[t]))
-    if tier != "quick":
-        for name, text, snippets in c22_models.repo_models(pathlib.Path(REPO), ["aas_core_meta.v3"]):
-            for t in ("jsonschema", "python"):
-                if t in snippets:
-                    out.append((name, text, t, snippets[t]))
     return out
 
 
